@@ -118,7 +118,33 @@ def open_model(engine, st, args, kwargs, node):
     yield st2, SV("file", {"path": ps, "content": content})
 
 
+def opaque_new(clsname):
+    def new(engine, st, args, kwargs, node):
+        st1, o = engine.new_object(st, clsname)
+        # a third-party constructor may raise anything
+        yield st, Raised("<unknown>", where=f"{clsname}(...)")
+        yield st1, o
+
+    return new
+
+
+def opaque_call(ret_type="Any", may_raise=True):
+    def call(engine, st, *a):
+        if may_raise:
+            yield st, Raised("<unknown>", where="third-party call")
+        f, sv = engine.fresh_of_type(ret_type, "ext")
+        yield st.with_facts(f), sv
+
+    return call
+
+
 def install(engine):
+    oc = engine.opaque_classes
+    oc["FluffConfig"] = {
+        "class_attrs": {"from_path": lambda e: SV("func", ("py", lambda eng, st, args, kwargs, node: opaque_new("FluffConfig")(eng, st, args, kwargs, node)))},
+        "methods": {"get": lambda eng, st, recv, args, kwargs, node: opaque_call("str", False)(eng, st)},
+        "fields": {},
+    }
     em = engine.ext_models
     em["os.environ.get"] = x_environ_get
     em["threading.get_ident"] = x_get_ident
